@@ -47,6 +47,7 @@ type RunResult struct {
 	Leaked         []string
 	Requests       []ReqLog
 	SecondValue    bool // a second value could be received from Wait()
+	Idle           bool // closed by the harness because nothing happened for RunOpts.MaxIdle
 	Stopped        bool // the harness stopped the run through RunOpts.Stop
 	Wall           time.Duration
 }
@@ -68,6 +69,9 @@ type RunOpts struct {
 	CloseCalls      int
 	CloseAfterWait  bool // close after Wait yielded (EOS / error)
 	MaxWait         time.Duration
+	// MaxIdle > 0: the harness also closes the client when neither a request nor a delivered unit
+	// was seen for that long (RunResult.Idle); MaxWait then only caps the whole run
+	MaxIdle time.Duration
 	AfterCloseWait  time.Duration // how long Wait() may take after the harness closed the client (default 6 s)
 	SkipLeakCheck   bool
 }
@@ -231,6 +235,35 @@ func RunClient(o RunOpts) *RunResult {
 		maxWait = 20 * time.Second
 	}
 	stopCh := o.Stop
+	expired := make(chan string, 1)
+	watchDone := make(chan struct{})
+	defer close(watchDone)
+	go func() {
+		lastN, lastAt := -1, time.Now()
+		tick := time.NewTicker(100 * time.Millisecond)
+		defer tick.Stop()
+		for {
+			select {
+			case <-watchDone:
+				return
+			case <-tick.C:
+			}
+			mu.Lock()
+			n := reqsSeen() + delivered
+			mu.Unlock()
+			if n != lastN {
+				lastN, lastAt = n, time.Now()
+			}
+			if time.Since(t0) > maxWait {
+				expired <- "total"
+				return
+			}
+			if o.MaxIdle > 0 && time.Since(lastAt) > o.MaxIdle {
+				expired <- "idle"
+				return
+			}
+		}
+	}()
 	select {
 	case err := <-c.Wait():
 		mu.Lock()
@@ -250,8 +283,9 @@ func RunClient(o RunOpts) *RunResult {
 		case <-time.After(o.afterClose()):
 			res.WaitErr = fmt.Errorf("HARNESS: Wait() yields nothing even %v after Close", o.afterClose())
 		}
-	case <-time.After(maxWait):
+	case why := <-expired:
 		// the client keeps running: close it and require termination
+		res.Idle = why == "idle"
 		doClose()
 		select {
 		case err := <-c.Wait():
